@@ -122,6 +122,7 @@ Array<String> TextFile::lines()
 
 String TextFile::text()
 {
+	_info.clear(); // the file may have changed since its size was cached
 	int n = (int)(size() & 0x7fffffff); // truncate
 	String text;
 	if (_file)
